@@ -46,7 +46,7 @@ REAL_VS_STUB = {
 }
 PROBES = ["shortcut_taken", "rescan_forced_by_other_handle", "rescan_after_failed_put", "flush_by_bufsize_threshold", "key_255", "key_256_rejected",
           "direct_raw_write", "dup_rejected", "readonly_write_rejected", "closed_handle_rejected", "clone_used", "queued_key_read_in_session",
-          "deferred_failure_at_session_end", "history_len_le_6", "badvalue_rejected", "read_after_deferred_dup"]
+          "deferred_failure_at_session_end", "history_len_le_6", "badvalue_rejected", "read_after_deferred_dup", "put_raised_for_an_earlier_queued_item"]
 
 
 def budget(tier):
@@ -213,6 +213,7 @@ def run_plan(plan, trace=False):
     outcome_seq = []
     stale_or_fail = [False]
     appended_since = [0] * len(H)   # how many puts other handles did since this handle last looked
+    refused_later = []
 
     def cfgname(h):
         if h["type"] == "ukv":
@@ -476,7 +477,7 @@ def run_plan(plan, trace=False):
                                 h.setdefault("pending_dups" if should_fail == "dup" else "pending_oversize", []).append(kb)
                                 outcome_seq.append(("put", "deferred-" + should_fail))
                                 surfaced = False
-                                if should_fail == "dup":
+                                if should_fail == "dup" and len(log) % 2 == 0:
                                     # get(k) must still return the bytes of the one SUCCESSFUL put (or let the deferred
                                     # failure surface here) - never the refused value
                                     try:
@@ -489,7 +490,24 @@ def run_plan(plan, trace=False):
                                         if g != model[kb]:
                                             viol("get-returns-wrong-bytes", "get-after-deferred-dup", h,
                                                  f"get({short(kb)}) = {short(g)} after a refused duplicate put; the stored value is {short(model[kb])}")
-                                # the rest of this session's puts have undefined status once the flush fails: end it now
+                                # More puts behind the queued bad item.  What the statement says about each of them is simple:
+                                # a put that RETURNS is a successful put (its key must be stored - at the latest once this
+                                # handle has completed its next writing session), a put that RAISES is a failed operation
+                                # (nothing of it may appear), whichever queued item the exception was really about.
+                                for j in (1, 2):
+                                    k2 = f"after{len(log)}x{j}".encode()
+                                    v2 = value_bytes([900 + j, 7 * j])
+                                    try:
+                                        h["obj"][k2.decode()] = v2
+                                    except (KeyError, ValueError, Exception) as e2:  # noqa: BLE001
+                                        surfaced = True
+                                        res.stats["probe:put_raised_for_an_earlier_queued_item"] += 1
+                                        refused_later.append(k2)
+                                    else:
+                                        model[k2] = v2
+                                        for jj in range(len(H)):
+                                            if jj != op["h"]:
+                                                appended_since[jj] += 1
                                 try:
                                     h["open"] = False
                                     h["cm"].__exit__(None, None, None)
@@ -500,6 +518,16 @@ def run_plan(plan, trace=False):
                                     raise
                                 except Exception:  # noqa: BLE001
                                     res.stats["probe:deferred_failure_at_session_end"] += 1
+                                    # let the handle store what it accepted but could not write before the failure
+                                    try:
+                                        with h["obj"].writing():
+                                            pass
+                                    except Exception:  # noqa: BLE001
+                                        try:
+                                            with h["obj"].writing():
+                                                pass
+                                        except Exception as e3:  # noqa: BLE001
+                                            viol("handle-unusable-after-failed-session-end", "end-after-deferred-" + should_fail, h, f"{e3!r}")
                                 h["cm"] = None
                                 h["pending_dups"] = []
                                 h["pending_oversize"] = []
